@@ -56,3 +56,21 @@ Definition parse_datetime (s : text) : option Z :=
 (* 1000-01-01T00:00:00 .. 9999-12-31T23:59:59, in seconds since the epoch: the years strftime("%Y") renders with four digits *)
 Definition min_seconds : Z := days_from_civil 1000 1 1 * 86400.
 Definition max_seconds : Z := days_from_civil 9999 12 31 * 86400 + 86399.
+
+(* ---- kskm.common.parse_utils.parse_datetime on the three notations of a UTC instant that KSR and SKR files use:
+   offset-less (the archived KSRs write it so), "Z", and "+00:00" (what the tools write). A zone-less value is UTC whatever zone the
+   host is in; everything else datetime.fromisoformat accepts is outside this model (None). ---- *)
+Definition format_body (s : Z) : text :=
+  let days := s / 86400 in
+  let r := s mod 86400 in
+  let '(y, m, d) := civil_from_days days in
+  pad4 y ++ [45] ++ pad2 m ++ [45] ++ pad2 d ++ [84] ++ pad2 (r / 3600) ++ [58] ++ pad2 (r mod 3600 / 60) ++ [58] ++ pad2 (r mod 60).
+
+Definition read_utc (s : text) : option Z :=
+  if Nat.eqb (length s) 19 then parse_datetime (s ++ utc_suffix)
+  else if Nat.eqb (length s) 20 then
+    match rev s with
+    | 90 :: r => parse_datetime (rev r ++ utc_suffix)
+    | _ => None
+    end
+  else parse_datetime s.
